@@ -67,7 +67,9 @@ def gen_inputs(tier, rng):
                                                                        # names whose upper-case form has another length (defect D37), other non-ASCII names
                                                                        'Z\u00df1|a', 'Za\u00df|a|b', 'Z\ufb01a|a', 'z\u00df1|a', 'Z\u0131A|1', 'Z\u00e91|a', 'P\u0131D|1', '\u017fid|1',
                                                                        # lines made of white space only (what CR LF line ends leave behind): no segment, no crash (seed C15-i)
-                                                                       ' ', '\t', '\n', ' \t ', '\x0b', '\x0c', '\n']))
+                                                                       ' ', '\t', '\n', ' \t ', '\x0b', '\x0c', '\n',
+                                                                       # a second header line, in lower case too (defect D46)
+                                                                       'msh|1|2^3', 'MSH|1|2^3', 'Msh|^~\\&|x', 'msh|']))
             if rng.random() < .4:
                 # ... in a message whose MSH-9 names no structure: its segments are not grouped, every line reaches the Segment constructor
                 f = segs[0].split('|')
